@@ -43,10 +43,19 @@ func routeScenario(v6 bool, xids, ths []byte, evs [][]byte) []callOutcome {
 		var c4 *nclient4.Client
 		var c6 *nclient6.Client
 		var err error
+		logDropped := (len(evs)+len(xids))%2 == 1 // the optional logging of dropped datagrams must not change routing
 		if v6 {
-			c6, err = nclient6.NewWithConn(conn, labHW, nclient6.WithTimeout(time.Hour), nclient6.WithRetry(1))
+			o6 := []nclient6.ClientOpt{nclient6.WithTimeout(time.Hour), nclient6.WithRetry(1)}
+			if logDropped {
+				o6 = append(o6, nclient6.WithLogDroppedPackets(), nclient6.WithDebugLogger())
+			}
+			c6, err = nclient6.NewWithConn(conn, labHW, o6...)
 		} else {
-			c4, err = nclient4.NewWithConn(conn, labHW, nclient4.WithTimeout(time.Hour), nclient4.WithRetry(1))
+			o4 := []nclient4.ClientOpt{nclient4.WithTimeout(time.Hour), nclient4.WithRetry(1)}
+			if logDropped {
+				o4 = append(o4, nclient4.WithDebugLogger())
+			}
+			c4, err = nclient4.NewWithConn(conn, labHW, o4...)
 		}
 		if err != nil {
 			t.Fatal(err)
@@ -90,6 +99,7 @@ func routeScenario(v6 bool, xids, ths []byte, evs [][]byte) []callOutcome {
 			if v6 {
 				m := &dhcpv6.Message{MessageType: dhcpv6.MessageTypeReply, TransactionID: dhcpv6.TransactionID{0, 0, x}}
 				m.AddOption(&dhcpv6.OptionGeneric{OptionCode: 4000, OptionData: []byte{p}})
+				m.AddOption(dhcpv6.OptServerID(&dhcpv6.DUIDLL{HWType: 1, LinkLayerAddr: net.HardwareAddr{2, 0, 0, 0, 0, 9}})) // a realistic length
 				b = m.ToBytes()
 				if kind >= 1 && kind <= 3 {
 					b = b[:len(b)-1] // undecodable: the only filter nclient6 has
